@@ -30,15 +30,17 @@ def submit(client, peer, invoke=None, payload=b"\x01"):
 
 @meta(bounds="one client stack, npeers silent peer stations; k requests, each to a symbolically chosen peer; the allocation "
              "cursor starts at a symbolic value 0..255 (wrap-around is reached without 256 requests); each request "
-             "optionally carries an application-chosen invoke ID (symbolic 0..255)",
+             "optionally carries an application-chosen invoke ID (symbolic 0..255); mid_answer: the first request's peer has sent "
+             "the first segment of a segmented answer and stopped (the transaction is live in another state)",
       outside="more than k outstanding requests, more than npeers peers, exhaustion of all 256 IDs toward one peer",
       stubs=STUBS + ["StateMachineAccessPoint.nextInvokeID set to the symbolic start value (the anchor state the property names)"])
-def ids(d, k, npeers, chosen):
+def ids(d, k, npeers, chosen, mid_answer=False):
     w = World()
     lan = nl.FaultLAN([], world=w)
     client = nl.AppStack(nl.make_device("c", 10, numberOfApduRetries=0), lan)
+    raw = {}
     for p in PEERS[:npeers]:
-        nl.RawPeer(p, lan)
+        raw[p] = nl.RawPeer(p, lan)
     start = d.int(0, 255, 'cursor')
     if not hasattr(client.smap, 'nextInvokeID'):
         d.reach()
@@ -81,6 +83,13 @@ def ids(d, k, npeers, chosen):
         if a["type"] != 0 or a["invoke"] != got or str(lan.frames[-1][2]) != str(Address(peer)):
             raise Violation("wire-id-mismatch", wire=a["invoke"], reported=got)
         live.append((peer, got))
+        if mid_answer and i == 0:
+            # the peer starts answering the first request with a segmented ComplexAck and stops after the first segment: the
+            # transaction is live (it waits for the rest) and keeps its invoke ID
+            raw[peer].send(client.address, nl.frame(bytes([0x3C, got, 0x00, 0x02, 18, 0x09, 0x07, 0x19, 0x01]), False))
+            w.settle()
+            if client.confirmations:
+                raise Violation("outcome-after-first-segment", n=len(client.confirmations))
     d.note(live=live, cursor=start)
     d.reach()
 
@@ -272,6 +281,62 @@ def cross_roles(d):
     d.reach()
 
 
+@meta(bounds="two complete stacks X and Y with a request pending in each direction (the applications answer later), the two "
+             "requests carrying the same invoke ID or different ones (symbolic); a stray segment of a ComplexAck with a non-zero "
+             "sequence number and X's invoke ID reaches X from Y's address (spoofed by a third node), so that X's CLIENT "
+             "transaction aborts toward Y: the abort on the wire carries the server bit 0; it ends Y's server transaction for "
+             "X's request and nothing else - Y's own request to X is still answered when X's application answers",
+      outside="other ways of making a client abort toward its peer",
+      stubs=STUBS)
+def abort_direction(d):
+    from bacpypes.vlan import Node as _Node
+    from bacpypes.comm import Client as _Client, bind as _bind
+    from bacpypes.pdu import PDU as _PDU
+    w = World()
+    lan = nl.FaultLAN([], world=w)
+    X = nl.AppStack(nl.make_device("x", 20), lan)
+    Y = nl.AppStack(nl.make_device("y", 21), lan)
+    X.pt_mode = Y.pt_mode = "later"
+    same = d.bool('same_invoke_id')
+    ry = nl.private_transfer(X.address, b"\x01")
+    ry.apduInvokeID = 9
+    rx = nl.private_transfer(Y.address, b"\x02")
+    rx.apduInvokeID = 9 if same else 10
+    Y.request(ry)
+    X.request(rx)
+    w.settle()
+    if len(X.pt_pending) != 1 or len(Y.pt_pending) != 1:
+        raise Violation("requests-not-indicated", x=len(X.pt_pending), y=len(Y.pt_pending))
+    n0 = len(lan.frames)
+    spoof = _Client()
+    _bind(spoof, _Node(Address(99), lan, spoofing=True))
+    spoof.confirmation = lambda pdu: None
+    stray = nl.frame(bytes([0x3C, rx.apduInvokeID, 0x03, 0x02, 18, 0x09, 0x07]), False)
+    spoof.request(_PDU(stray, source=Y.address, destination=X.address))
+    w.settle()
+    aborts = []
+    for (i, src, dst, data) in lan.frames[n0:]:
+        a = wire.parse_frame(data)[1]
+        if a is not None and a["type"] == 7 and str(src) == str(X.address):
+            aborts.append(a)
+    if len(aborts) != 1 or aborts[0]["invoke"] != rx.apduInvokeID:
+        raise Violation("client-abort-on-the-wire", n=len(aborts))
+    if aborts[0]["srv"]:
+        raise Violation("client-abort-carries-server-bit", invoke=aborts[0]["invoke"], same_id=bool(same))
+    if [nl.outcome_kind(c) for c in X.confirmations] != ["abort"]:
+        raise Violation("aborting-client-outcome", got=[nl.outcome_kind(c) for c in X.confirmations])
+    if Y.confirmations:
+        raise Violation("abort-applied-to-the-peers-own-request", got=[nl.outcome_kind(c) for c in Y.confirmations], same_id=bool(same))
+    # Y's own request is still alive: X's application answers it now
+    X.pt_answer(X.pt_pending[0], result=b"\x55")
+    w.run()
+    if [nl.outcome_kind(c) for c in Y.confirmations] != ["ack"] or nl.payload_of(Y.confirmations[0], 'resultBlock') != b"\x55":
+        raise Violation("other-direction-outcome", got=[nl.outcome_kind(c) for c in Y.confirmations], same_id=bool(same))
+    if nl.residue(X) or nl.residue(Y) or not w.idle():
+        raise Violation("residue", x=nl.residue(X), y=nl.residue(Y))
+    d.reach()
+
+
 def request_octets(invoke, payload=b"\x05", seg_accepted=True):
     """unsegmented ConfirmedPrivateTransfer request, max APDU code 5, max segs code 4"""
     body = bytes([0x09, 0x07, 0x19, 0x01, 0x2E, 0x60 | len(payload)]) + bytes(payload) + bytes([0x2F])
@@ -364,6 +429,9 @@ def instances(tier):
         for kind in REPLY_KINDS:
             out.append(Inst(demux_routed, dict(kind=kind), budget=60))
         out.append(Inst(cross_roles, {}, budget=90))
+        out.append(Inst(abort_direction, {}, budget=90))
+        out.append(Inst(ids, dict(k=3, npeers=2, chosen=False, mid_answer=True), budget=150))
+        out.append(Inst(ids, dict(k=3, npeers=1, chosen=True, mid_answer=True), budget=150))
         out.append(Inst(dup_request, {}, budget=60))
     else:
         out.append(Inst(ids, dict(k=5, npeers=3, chosen=False), budget=900, path_timeout=120))
@@ -378,6 +446,9 @@ def instances(tier):
             out.append(Inst(demux, dict(kind=kind), budget=300))
             out.append(Inst(demux_routed, dict(kind=kind), budget=300))
         out.append(Inst(cross_roles, {}, budget=300))
+        out.append(Inst(abort_direction, {}, budget=300))
+        out.append(Inst(ids, dict(k=5, npeers=2, chosen=False, mid_answer=True), budget=900, path_timeout=120))
+        out.append(Inst(ids, dict(k=4, npeers=1, chosen=True, mid_answer=True), budget=900, path_timeout=120))
         out.append(Inst(dup_request, {}, budget=300))
     return out
 
